@@ -640,11 +640,13 @@ func c08Gen(rng *rand.Rand, tier string, w *bufio.Writer) {
 	fixed("k3", 3, 0, 0, "{a:i2}", mk("a", I(2)))
 	fmt.Fprintln(w, "q key asc 1 0 - - 0 &(a~eq~i64:2~)")
 	fmt.Fprintln(w, "q key asc 0 1 - - 0 &(a~eq~i64:2~)")
+	fmt.Fprintln(w, "q key asc 1 0 - - 0 &(a~eq~i64:2~) m")
 	// corpus 3: the label of the indexed leg
 	fmt.Fprintln(w, "case 3")
 	fixed("k1", 1, 0, 0, "{a:i1,b:'a'}", mk("a", I(1), "b", S("a")))
 	fmt.Fprintln(w, "q key asc 0 0 - - 0 &(a~eq~i64:1~L1,b~eq~s:a~L2)")
 	fmt.Fprintln(w, "q key asc 0 0 - - 0 |(a~eq~i64:1~L1,b~eq~s:a~L2)")
+	fmt.Fprintln(w, "q key asc 0 0 - - 0 &(a~eq~i64:1~L1,b~eq~s:a~L2) m")
 	// corpus 4: a record without CreatedAt in a creation-time ordered query
 	fmt.Fprintln(w, "case 4")
 	fixed("k1", 0, 0, 0, "{a:i1}", mk("a", I(1)))
@@ -670,6 +672,8 @@ func c08Gen(rng *rand.Rand, tier string, w *bufio.Writer) {
 	fmt.Fprintln(w, "del k1")
 	fmt.Fprintln(w, "q key desc 0 0 - - 0 &(a~eq~i64:1~,b~ne~s:b~)")
 	fmt.Fprintln(w, "q created desc 0 0 2 9 2 |(a~eq~f64:4~,b~sin~s:a;b~)")
+	fmt.Fprintln(w, "q created desc 0 0 2 9 2 |(a~eq~f64:4~,b~sin~s:a;b~) m")
+	fmt.Fprintln(w, "q created asc 0 0 - 4 0 &(a~eq~i64:1~) m")
 
 	// corpus 5h: a first query is held inside GetOrBuildBucket after BuildEquality, before DrainPending
 	// (forced schedule through the hook): saves and a delete arrive meanwhile, a second reader comes
@@ -809,7 +813,8 @@ func c08Gen(rng *rand.Rand, tier string, w *bufio.Writer) {
 					sort.Ints(ks)
 					seed = bodies[ks[rng.Intn(len(ks))]]
 				}
-				fmt.Fprintf(w, "q %s %s %d %d %s %s %d %s\n", idx, ord, from, limit, ft, tt, max, c08Group(rng, 2, labelP, special, seed))
+				fmt.Fprintf(w, "q %s %s %d %d %s %s %d %s%s\n", idx, ord, from, limit, ft, tt, max, c08Group(rng, 2, labelP, special, seed),
+					[]string{"", "", " m"}[rng.Intn(3)])
 			}
 		}
 		if held > 0 {
@@ -997,6 +1002,18 @@ func (s *c08Stream) Send(r *hydrapb.GetByIndexStreamResponse) error {
 	s.out = append(s.out, item)
 	return nil
 }
+// the same items from GetByIndexStreamFromMany
+type c08ManyStream struct{ c08Stream }
+
+func (s *c08ManyStream) Send(r *hydrapb.GetByIndexStreamFromManyResponse) error {
+	item := r.GetTreasure().GetKey()
+	if m := r.GetMeta(); m != nil && len(m.GetMatchedLabels()) > 0 {
+		item += "[" + strings.Join(m.GetMatchedLabels(), "+") + "]"
+	}
+	s.out = append(s.out, item)
+	return nil
+}
+
 func (s *c08Stream) SetHeader(metadata.MD) error  { return nil }
 func (s *c08Stream) SendHeader(metadata.MD) error { return nil }
 func (s *c08Stream) SetTrailer(metadata.MD)       {}
@@ -1191,7 +1208,9 @@ func c08Run(in *bufio.Scanner, w *bufio.Writer) {
 					return "nilnil"
 				}
 				return "ok"
-			case f[0] == "q" && len(f) == 9:
+			case f[0] == "q" && (len(f) == 9 || (len(f) == 10 && f[9] == "m")):
+				// a tenth token `m`: both routes through GetByIndexStreamFromMany (one query) — its own copy of the route logic
+				many := len(f) == 10
 				it, ok := c07IndexType(f[1])
 				from, e1 := strconv.ParseInt(f[3], 10, 32)
 				limit, e2 := strconv.ParseInt(f[4], 10, 32)
@@ -1214,6 +1233,16 @@ func c08Run(in *bufio.Scanner, w *bufio.Writer) {
 					ord = hydrapb.OrderType_DESC
 				}
 				runQ := func(fg *hydrapb.FilterGroup) string {
+					if many {
+						st := &c08ManyStream{c08Stream{ctx: ctx}}
+						err := rig.GW.GetByIndexStreamFromMany(&hydrapb.GetByIndexStreamFromManyRequest{Queries: []*hydrapb.SwampQuery{{
+							IslandID: 1, SwampName: swampName, IndexType: it, OrderType: ord, From: int32(from), Limit: int32(limit),
+							FromTime: ft, ToTime: tt, MaxResults: int32(max), Filters: fg}}}, st)
+						if err != nil {
+							return "err:" + c07ErrClass(err)
+						}
+						return strings.Join(st.out, ",")
+					}
 					st := &c08Stream{ctx: ctx}
 					err := rig.GW.GetByIndexStream(&hydrapb.GetByIndexStreamRequest{IslandID: 1, SwampName: swampName,
 						IndexType: it, OrderType: ord, From: int32(from), Limit: int32(limit), FromTime: ft, ToTime: tt,
